@@ -22,6 +22,8 @@ type conn struct {
 	wscale           uint
 	finSent, finRcvd bool
 	sent             []byte // bytes the peer has put into the stream so far
+	sws              uint   // the window scale the stack announced in its SYN / SYN-ACK (0 if none)
+	advWnd           uint32 // the window of the stack's latest segment, scaled
 }
 
 func seqLT(a, b uint32) bool { return int32(a-b) < 0 }
@@ -35,13 +37,86 @@ func (w *World) observe(c *conn, from int) {
 		if seqLT(c.sNxt, end) {
 			c.sNxt = end
 		}
+		if s.Flags&2 != 0 {
+			// the stack's own window scale: option kind 3 of its SYN / SYN-ACK
+			for i := 0; i < len(s.Opts); {
+				k := s.Opts[i]
+				if k == 0 {
+					break
+				}
+				if k == 1 {
+					i++
+					continue
+				}
+				if i+1 >= len(s.Opts) || s.Opts[i+1] < 2 {
+					break
+				}
+				if k == 3 && i+2 < len(s.Opts) {
+					c.sws = uint(s.Opts[i+2])
+				}
+				i += int(s.Opts[i+1])
+			}
+		}
 		if s.Flags&16 != 0 {
 			c.rcvNxt = s.Ack
+			if s.Flags&2 == 0 {
+				c.advWnd = uint32(s.Wnd) << c.sws
+			} else {
+				c.advWnd = uint32(s.Wnd)
+			}
 		}
 		if s.Flags&1 != 0 {
 			c.finRcvd = true
 		}
 	}
+}
+
+// rightEdge: the application does not read; the peer sends a segment that begins exactly on the right edge of the
+// window the stack advertises (or a little behind it) while the window is still open, then fills the window
+// exactly: nothing beyond the edge may be acknowledged or delivered.
+func (w *World) rightEdge(r *hx.Run, c *conn, sport uint16) {
+	if c.finSent || c.advWnd == 0 || c.advWnd > 70000 || c.pSeq != c.rcvNxt {
+		return
+	}
+	r.Count("tcp.right-edge")
+	edge := c.rcvNxt + c.advWnd
+	skip := []int{0, 0, 0, 1, 7}[r.R.Intn(5)]
+	at := edge + uint32(skip)
+	// what the peer's stream holds behind the edge: the early segment carries a piece of it, and the peer sends all of
+	// it (again) in order once the window has reopened
+	tail := make([]byte, skip+1+r.R.Intn(20))
+	r.R.Read(tail)
+	stray := tail[skip:]
+	from := len(w.Seen)
+	w.Seg(sport, LPort, 24, at, c.sAcked, 65535, c.opts(r), stray)
+	w.observe(c, from)
+	// fill the window exactly, in a few segments
+	left := int(edge - c.pSeq)
+	for left > 0 {
+		n := left
+		if n > 1400 {
+			n = 1 + r.R.Intn(1400)
+		}
+		b := make([]byte, n)
+		r.R.Read(b)
+		from = len(w.Seen)
+		w.Seg(sport, LPort, 24, c.pSeq, c.sAcked, 65535, c.opts(r), b)
+		c.sent = append(c.sent, b...)
+		c.pSeq += uint32(n)
+		left -= n
+		w.observe(c, from)
+	}
+	for j := 0; j < 40; j++ {
+		w.Read(c.id)
+		if !w.lastReadData {
+			break
+		}
+	}
+	from = len(w.Seen)
+	w.Seg(sport, LPort, 24, c.pSeq, c.sAcked, 65535, c.opts(r), tail)
+	c.sent = append(c.sent, tail...)
+	c.pSeq += uint32(len(tail))
+	w.observe(c, from)
 }
 
 func (c *conn) opts(r *hx.Run) []byte {
@@ -535,6 +610,8 @@ func Gen(r *hx.Run, focus string) {
 			w.lossEpisode(r, c, sport)
 		case k == 5 || (focus == "C02" && k < 9):
 			w.finBehindData(r, c, sport)
+		case k == 7 || (focus == "C04" && k < 10):
+			w.rightEdge(r, c, sport)
 		}
 	}
 	var prev *World
